@@ -312,6 +312,12 @@ func waitUntil(cond func() bool, d time.Duration) bool {
 		if cond() {
 			return true
 		}
+		wedgedMu.Lock()
+		anyWedged := len(wedged) > 0
+		wedgedMu.Unlock()
+		if anyWedged && time.Until(deadline) > 2*time.Second {
+			deadline = time.Now().Add(2 * time.Second)
+		}
 		if time.Now().After(deadline) {
 			return false
 		}
@@ -319,8 +325,41 @@ func waitUntil(cond func() bool, d time.Duration) bool {
 	}
 }
 
+// wedged routers: once a query of a router's table did not return within a second, the router's
+// mutex is held for good; every later query answers at once and the scenario is abandoned
+var wedgedMu sync.Mutex
+var wedged = map[*network.Router]bool{}
+
+// wedgedKinds counts abandoned scenarios per kind; after three, the remaining scenarios of that
+// kind are not run (each would only sit out its deadlines)
+var wedgedKinds = map[string]int{}
+
+func isWedged(r *network.Router) bool {
+	wedgedMu.Lock()
+	defer wedgedMu.Unlock()
+	return wedged[r]
+}
+
+func connListBounded(r *network.Router, id network.ServerIdentityID) ([]network.Conn, bool) {
+	if isWedged(r) {
+		return nil, false
+	}
+	res := make(chan []network.Conn, 1)
+	go func() { res <- r.VerifConnList(id) }()
+	select {
+	case l := <-res:
+		return l, true
+	case <-time.After(1500 * time.Millisecond):
+		wedgedMu.Lock()
+		wedged[r] = true
+		wedgedMu.Unlock()
+		return nil, false
+	}
+}
+
 func (n *fnet) inTable(c *fconn) bool {
-	for _, x := range n.S.VerifConnList(n.peers[c.peer].GetID()) {
+	l, _ := connListBounded(n.S, n.peers[c.peer].GetID())
+	for _, x := range l {
 		if x == network.Conn(c) {
 			return true
 		}
@@ -628,7 +667,8 @@ func (n *fnet) snapshot(res int, skip, timeout bool) (string, map[string]interfa
 		defer close(got)
 		for p, si := range n.peers {
 			ids := []int{}
-			for _, c := range n.S.VerifConnList(si.GetID()) {
+			l, _ := connListBounded(n.S, si.GetID())
+			for _, c := range l {
 				if fc, ok := c.(*fconn); ok {
 					ids = append(ids, fc.id)
 				}
@@ -738,6 +778,9 @@ func classOfScript(in input) string {
 }
 
 func runScript(in input) lib.Case {
+	if wedgedKinds["script"] >= 3 {
+		return lib.Case{Discard: true}
+	}
 	n := newFnet(in.TCP, in.NP, in.NH, in.HSend)
 	defer n.cleanup()
 	var ops, snaps []string
@@ -745,6 +788,9 @@ func runScript(in input) lib.Case {
 	sends, errs := 0, 0
 	for _, o := range in.Ops {
 		res, skip, to := n.exec(o)
+		if isWedged(n.S) {
+			to = true
+		}
 		s, h := n.snapshot(res, skip, to)
 		ops = append(ops, o.coq())
 		snaps = append(snaps, s)
@@ -759,6 +805,7 @@ func runScript(in input) lib.Case {
 		if to {
 			// "did not return" is the observation; nothing more can be learnt from a wedged router
 			n.abandoned = true
+			wedgedKinds["script"]++
 			break
 		}
 	}
